@@ -93,6 +93,22 @@ NEW or IDLE under the state lock (all three regenerated from the source) -/
 theorem h1_reuse_rule : Gen.h1ReuseNeedsBothDone = true ∧ Gen.h1AvailableIffIdle = true ∧ Gen.h1GateFromNewOrIdleOnly = true := by
   decide
 
+/-- the gate's test-and-set runs inside the connection's state lock (regenerated): between threads of the synchronous pool it
+is one atomic step, which is what `Sys`'s `gate` action and `exclusive_use` assume -/
+theorem h1_gate_atomic : Gen.h1GateUnderStateLock = true := by decide
+
+/-- **C01.h2_broken_connection_not_offered** — an HTTP/2 connection on which an exchange went wrong at the connection level
+(`_connection_error`: a write failed, h2 rejected a header block part-way through HPACK encoding, the peer violated the
+protocol), whose stream ids are used up, or which is closed on either level, is not offered to any further request - for every
+combination of the four flags (the expression is regenerated from `is_available`). -/
+theorem h2_broken_connection_not_offered (closed connErr usedAll h2Closed : Bool) :
+    Gen.h2Available closed connErr usedAll h2Closed = true →
+      closed = false ∧ connErr = false ∧ usedAll = false ∧ h2Closed = false := by
+  cases closed <;> cases connErr <;> cases usedAll <;> cases h2Closed <;> decide
+
+/-- and a healthy one is (non-vacuity) -/
+example : Gen.h2Available false false false false = true := by decide
+
 /-! ## ownership (transition system `Sys`, every reachable state) -/
 open Httpcore.Sys
 
